@@ -1551,6 +1551,91 @@ fn scen_fault_discover(seed: u64) {
     println!("@@EVAL 3");
 }
 
+/// un-injected: the closure reports (80) as its last act; the driver reads from the tracer's log which system
+/// calls the THREAD makes after that until it exits (storing the result, waking the joiner, unmapping its own
+/// stack, exit), and then asks for `exit_fault_nr` runs refusing each of them
+fn scen_exit_fault_discover(seed: u64) {
+    {
+        let v: Vec<u8> = Vec::with_capacity(1 << 20);
+        drop(v);
+    }
+    for i in 0..3 {
+        let tag = mix(seed, i as u64);
+        marker::begin(4, i as i64, 0);
+        let h = tiny_std::thread::spawn(move || {
+            marker::report(80, i as i64, 0, 0, 0);
+            tag
+        });
+        if let Ok(h) = h {
+            let _ = h.join();
+        }
+        let _ = quiesce();
+        marker::end(4, i as i64, 0, 0, 0);
+    }
+    println!("@@EVAL 3");
+}
+
+/// the closure has run and produced its value; the `occ`-th call of system call `nr` the finishing thread makes
+/// afterwards (e.g. the munmap of its own stack) is refused. join must still return the value and the process
+/// must survive (a stack that stays mapped is not this property's business).
+fn scen_exit_fault(seed: u64, nr: i64, ret: i64, occ: i64) {
+    {
+        let v: Vec<u8> = Vec::with_capacity(1 << 20);
+        drop(v);
+    }
+    let mut o = Out {
+        spawned: 0,
+        joined_some: 0,
+        joined_none: 0,
+        dropped: 0,
+        spawn_err: 0,
+    };
+    // 0: join at once (joiner parks), 1: join long after the thread is gone, 2: as 0 again after a leaked stack
+    for round in 0..3usize {
+        let idx = round;
+        let tag = mix(seed, round as u64);
+        RUNS[idx].store(0, Ordering::Relaxed);
+        DONE[idx].store(0, Ordering::Relaxed);
+        unsafe {
+            BUF[idx] = [0; 8];
+        }
+        JOINED[idx].store(0, Ordering::Relaxed);
+        marker::begin(5, nr, round as i64);
+        let h = tiny_std::thread::spawn(move || {
+            TIDMAP[gettid() as usize & 0xFFFF].store(idx as u32 + 1, Ordering::Relaxed);
+            RUNS[idx].fetch_add(1, Ordering::Relaxed);
+            sleep_us(if round == 1 { 0 } else { 300 });
+            unsafe {
+                let p = core::ptr::addr_of_mut!(BUF[idx]).cast::<u64>();
+                for i in 0..8 {
+                    p.add(i).write(tag.wrapping_add(i as u64));
+                }
+            }
+            DONE[idx].store(1, Ordering::Release);
+            marker::inject(marker::SCOPE_THREAD, nr, occ, ret, 1);
+            tag
+        });
+        let Ok(h) = h else {
+            println!("@@INCONCLUSIVE un-injected spawn failed (exit_fault)");
+            return;
+        };
+        o.spawned += 1;
+        if round == 1 {
+            sleep_us(5000);
+        }
+        marker::report(81, round as i64, 0, 0, 0);
+        let got = h.join();
+        JOINED[idx].store(1, Ordering::Relaxed);
+        marker::report(82, round as i64, i64::from(got.is_some()), 0, 0);
+        judge_join::<u64>(idx, tag, false, got, Disp::JoinRace, &mut o);
+        sleep_us(2000);
+        marker::end(5, nr, round as i64, 0, 0);
+        println!("@@DISTINCT exit-fault/{nr}#{occ}/round{round}");
+    }
+    println!("@@EVAL {}", o.spawned);
+    println!("@@SAMPLE {{\"scenario\":\"exit_fault\",\"syscall\":{nr},\"occurrence\":{occ},\"joined_some\":{},\"joined_none\":{}}}", o.joined_some, o.joined_none);
+}
+
 /// spawn while sysmon makes the `occ`-th call of system call `nr` inside the chosen spawn fail
 fn scen_fault(seed: u64, n: usize, nr: i64, ret: i64, occ: i64) {
     let mut r = Rng(seed);
@@ -1688,6 +1773,8 @@ pub fn main() -> i32 {
         b"fault_mmap" => scen_fault(seed, 6, 9, -12, 0),
         b"fault_discover" => scen_fault_discover(seed),
         // fault_nr <seed> <nr> <quarantine> <occurrence>: the refusal is EAGAIN for clone, ENOMEM for everything else
+        b"exit_fault_discover" => scen_exit_fault_discover(seed),
+        b"exit_fault_nr" => scen_exit_fault(seed, n_raw as i64, -12, occ as i64),
         b"fault_nr" => scen_fault(seed, 6, n_raw as i64, if n_raw == 56 { -11 } else { -12 }, occ as i64),
         _ => println!("@@INCONCLUSIVE unknown scenario"),
     }
